@@ -104,6 +104,14 @@ def oracle(rows):
             for k in chain:
                 if child.get(k[0], 0) <= k[1]:
                     fail("next child index %s of account %d not beyond restored path %s" % (child.get(k[0], 0), k[0], k))
+            # "filed under the right account": every restored output's parent path is an account the
+            # restored wallet knows (otherwise it can neither report nor spend it)
+            if "accounts" in r:
+                for o in outs:
+                    if o["root"] not in r["accounts"]:
+                        fail("restored output %s is filed under account path %d, which the restored wallet does "
+                             "not have (its accounts: %s)" % ((o["acct"], o["child"]), o["root"], sorted(r["accounts"])))
+                        break
             # same spendable totals per account as the (consistent) original
             def totals(snap):
                 t = collections.Counter()
